@@ -89,6 +89,9 @@ def run(ctx):
     sysc, sys_missing = G.systematic_cases(gen)
     for cx, e, pname, rt in sysc:
         cases.append((cx, e, None, None))
+    shad = G.shadow_cases(gen)
+    for cx, e in shad:
+        cases.append((cx, e, None, None))
     depth = ctx.pick(4, 6)
     for i in range(ctx.pick(4000, 120000)):
         cx, e = gen.case(ctx.rng.choice([2, 3, depth, depth]))
@@ -153,10 +156,10 @@ def run(ctx):
             ctx.sample({'ctx': rq['ctx'], 'e': rq['e'], 'value': iv})
     pairs = len(matrix)
     return ctx.finish(
-        rule='first a systematic matrix: every operand position of every construct filled with every construct that the typed generator can put there; then typed random ASTs of the core fragment (depth up to %d) over literals, arithmetic, comparison, and/or, if, between, in (values, unary tests, ranges, lists), lists, contexts '
+        rule='first the implicit names item/partial against every way of binding them outside (%d cases) and a systematic matrix: every operand position of every construct filled with every construct that the typed generator can put there; then typed random ASTs of the core fragment (depth up to %d) over literals, arithmetic, comparison, and/or, if, between, in (values, unary tests, ranges, lists), lists, contexts '
              '(later entries using earlier ones), paths, filters (boolean/index/item/context entries), for (lists, ascending/descending ranges, empty and scalar domains, partial), some/every, '
              'function definition and positional/named invocation, with ~4%% ill-typed operands and nulls; free names bound in an input context to numbers, strings, booleans, nulls, lists, contexts, functions; '
-             'rendered fully parenthesised; non-trivial = distinct expression text with a non-null result; cases whose value the integer model does not compute (inexact division/power) are skipped' % depth,
+             'rendered fully parenthesised; non-trivial = distinct expression text with a non-null result; cases whose value the integer model does not compute (inexact division/power) are skipped' % (len(shad), depth),
         extra_cov={'exhaustive': False, 'nesting_pairs_covered': pairs, 'systematic_parent_position_x_child_construct_cases': len(sysc),
                    'systematic_pairs_not_constructible_by_the_typed_generator': len(sys_missing), 'skipped_not_computed_by_model': poisoned, 'null_results': nulls, 'parse_errors': errs,
                    'constructs': sorted({k[1] for k in matrix})},
